@@ -81,7 +81,7 @@ func cmdCheck(args []string) {
 	verif := fs.String("verif", "/verif", "")
 	prop := fs.String("prop", "", "property id")
 	tier := fs.String("tier", "quick", "quick|thorough")
-	jobs := fs.Int("jobs", 8, "parallel obligations")
+	jobs := fs.Int("jobs", 12, "parallel obligations")
 	evidenceOut := fs.String("evidence", "", "evidence file (default /verif/evidence/<id>.json)")
 	updateBaseline := fs.Bool("update-baseline", false, "rewrite baseline/<id>.txt from this run")
 	fs.Parse(args)
@@ -147,6 +147,7 @@ func cmdCheck(args []string) {
 	nObl, nDis, nCover := 0, 0, 0
 	samples := []map[string]string{}
 	var engineErrs []string
+	var allObls []*Obligation
 	e.VerifyAll(units, func(res *UnitResult) {
 		u := res.Unit
 		if res.Err != "" {
@@ -156,7 +157,10 @@ func cmdCheck(args []string) {
 		for _, t := range res.Trusted {
 			assumptions[t] = true
 		}
-		rs := solveAll(res.Obls, *jobs, timeout, all)
+		allObls = append(allObls, res.Obls...)
+	})
+	{
+		rs := solveAll(allObls, *jobs, timeout, all)
 		for i, r := range rs {
 			rep := oblReport{Name: r.O.Name, Func: r.O.Func, Beh: r.O.Beh, Kind: r.O.Kind, Pos: r.O.Pos, Status: r.R.Status, Solver: r.R.Solver, TimeS: r.R.TimeS}
 			solverTime += r.R.TimeS
@@ -186,7 +190,7 @@ func cmdCheck(args []string) {
 			}
 			failures = append(failures, failure{o: r.O, r: r.R})
 		}
-	})
+	}
 	// static obligations (sweeps implemented in Go over the SSA)
 	for _, s := range cfg.Statics {
 		srs, errs := e.runStatic(s, cfg.ID)
